@@ -243,6 +243,17 @@ def run_unit(name, canary=True, rlimit=None):
     for kw in ("admit()", "assume(", "external_body", "assume_specification", "uninterp"):
         scan[kw] = text.count(kw)
     res["trust_scan"] = scan
+    # names of everything assumed in this unit (the trusted base, mechanically scanned from the generated text)
+    stub_names = {q.split("::")[-1] for q, _ in unit.stubs}
+    ext = re.findall(r"#\[verifier::external_body\]\s*(?:#\[[^\]]*\]\s*)*(?:pub\s+)?(?:async\s+)?(fn|struct)\s+(\w+)", text)
+    res["trusted_items"] = {
+        "external_body_fns (assumed contracts)": sorted({n for k, n in ext if k == "fn" and n not in stub_names}),
+        "stubs carrying contracts PROVED in another unit": sorted("%s (%s)" % (q, note) for q, note in unit.stubs),
+        "opaque external types": sorted({n for k, n in ext if k == "struct"}),
+        "assume_specification": sorted(set(re.findall(r"assume_specification(?:<[^>]*>)?\s*\[\s*([^\]]+?)\s*\]", text))),
+        "admitted axioms / ghost-world transitions": sorted({([None] + re.findall(r"proof fn (\w+)", text[:m_.start()]))[-1] for m_ in re.finditer(r"admit\(\);", text)} - {None}),
+        "uninterpreted spec functions": sorted(set(re.findall(r"uninterp spec fn (\w+)", text))),
+    }
     if out["timeout"]:
         res["status"] = "undecided"
         res["undecided_reason"] = "verus timeout"
